@@ -281,17 +281,21 @@ class Ctx:
 def check_C13(tier):
     c = Ctx("C13", tier)
     q = tier == "quick"
-    mp, ms = (3, 3) if q else (4, 4)
+    mp, ms = (4, 4) if q else (5, 5)
     # 1. the rules imply the property (and export every case of the bounded universe)
-    r = c.mc("Glob", "MC_C13.cfg", dict(MaxPat=mp, MaxStr=ms, Deviations="{}", Emit="Emit"),
+    r = c.mc("Glob", "MC_C13.cfg", dict(Alphabet="{97, 98, 42, 92}", MaxPat=mp, MaxStr=ms, Deviations="{}", Emit="Emit"),
              label="ideal machine: shape = declarative, all (pattern,string) pairs")
     c.mc("Glob", "MC_C13_live.cfg", label="termination under weak fairness")
-    c.mc("Glob", "MC_C13.cfg", dict(MaxPat=2, MaxStr=2, Deviations='{"GlobLiteralFirst"}', Emit=""),
+    # a second exhaustive family: longer patterns and strings over {a, *} only (overlapping false starts after a star)
+    r2 = c.mc("Glob", "MC_C13.cfg", dict(Alphabet="{97, 42}", MaxPat=6 if q else 8, MaxStr=7 if q else 9, Deviations="{}", Emit="Emit"),
+              label="two-letter family {a,*}: longer patterns / strings")
+    c.mc("Glob", "MC_C13.cfg", dict(Alphabet="{97, 98, 42, 92}", MaxPat=2, MaxStr=2, Deviations='{"GlobLiteralFirst"}', Emit=""),
          expect_violation="Agree", label="sensitivity: literal-first branch order breaks Agree")
     # 2. spec -> code
     c.replay("glob", r.cases,
              rule="every pattern x string over bytes {a,b,*,\\} with |pat|<=%d, |str|<=%d, evaluated through "
                   "policy.Like and policy.FromIPLD; non-trivial = both pattern and string contain * or \\" % (mp, ms))
+    c.replay("glob", r2.cases, rule="every pattern x string over {a,*} with |pat|<=%d, |str|<=%d" % ((6, 7) if q else (8, 9)))
     # 3. code -> spec
     n = 3000 if q else 40000
     for k in range(1 if q else 4):
